@@ -36,9 +36,13 @@ def lines_lower_bound(text: str, font: int, size: float, col_width_in: float) ->
 
 
 WORDS = ["alpha", "be", "gamma", "de", "eps", "zeta", "eta", "th", "iota", "kap"]
+# glyph classes far from the average advance: an estimate "characters x average width" is wrong for these
+WIDE_WORDS = ["WWWWWWWW", "MWMWMWMW", "WMMWWMMW", "@W@WM@WM", "MMMMWWWW", "WWMMWWMM"]
+NARROW_WORDS = ["illiilli", "itlitfil", "filliitt", "litiltil", "tilltill", "ijijllii"]
+WORD_SETS = {"normal": WORDS, "wide": WIDE_WORDS, "narrow": NARROW_WORDS}
 
 
-def filler(k: int, col_width_in: float, font: int = 1, size: float = 9, prefix: str = "", fonts=None) -> str | None:
+def filler(k: int, col_width_in: float, font: int = 1, size: float = 9, prefix: str = "", fonts=None, words=None) -> str | None:
     """Text whose width / column width lies in [k-1+0.2, k-0.2] for every font in `fonts`
     (default: the given font only): 'well inside a k-line band'.  None if impossible."""
     fonts = fonts or [(font, size)]
@@ -47,12 +51,13 @@ def filler(k: int, col_width_in: float, font: int = 1, size: float = 9, prefix: 
         if all(width_in(prefix, f, s) / col_width_in <= 0.8 for f, s in fonts):
             return prefix
         return None
+    words = words or WORDS
     text = prefix
     i = 0
     target = (k - 0.5) * col_width_in
     f0, s0 = fonts[0]
     while width_in(text, f0, s0) < target and len(text) < 4000:
-        text += (" " if text else "") + WORDS[i % len(WORDS)]
+        text += (" " if text else "") + words[i % len(words)]
         i += 1
     for _ in range(40):
         ratios = [width_in(text, f, s) / col_width_in for f, s in fonts]
